@@ -128,6 +128,29 @@ Definition h_to_implicit_host (g : hostg) : hostg :=
       | heavy => remove_node (fold_left (fun g'' x => upd_node g'' x (fun a => set_hc a (a_hc a + 1))) heavy g') h
       end) (h_nodes_h g) g.
 
+(** ** the default-mode way of writing a reaction, as a boolean of (G, H) and the template (evaluated by [run_c04]):
+    no atom changes its implicit hydrogen count and no count is negative; every hydrogen atom is bonded, on both sides,
+    to at least one atom and only to non-hydrogen atoms of the graph; every hydrogen atom is in the template with all
+    its bonds; every hydrogen atom of the template has a non-hydrogen neighbour on both template sides (so that
+    _strip_explicit_h removes it) *)
+Definition foldableb (g : hostg) : bool :=
+  forallb (fun h => match nbrs g h with
+                    | [] => false
+                    | xs => forallb (fun x => negb (is_H_h g x) && has_node g x) xs
+                    end) (h_nodes_h g).
+Definition heavy_nbr_m (g : molg) (h : N) : bool := existsb (fun x => negb (is_H_m g x)) (nbrs g h).
+Definition side0m (sn : inode -> nattr) (se : iedge -> Z) (t : its) : molg := init_m (dec_side sn se (standardize_hydrogen t)).
+Definition default_okb (A B : hostg) (t : its) : bool :=
+  forallb (fun p => match label B (fst p) with
+                    | Some y => Z.eqb (a_hc (snd p)) (a_hc y) && (0 <=? a_hc (snd p))
+                    | None => false end) (gnodes A)
+  && foldableb A && foldableb B
+  && forallb (fun h => mem h (node_ids t)
+                       && forallb (fun e => let '(u, v, _) := e in if N.eqb u h || N.eqb v h then has_adj t u v else true)
+                                  (gedges A ++ gedges B)) (h_nodes_h A)
+  && forallb (fun p => if N.eqb (a_el (iG (snd p))) EL_H
+                       then heavy_nbr_m (side0m iG eG t) (fst p) && heavy_nbr_m (side0m iH eH t) (fst p) else true) (gnodes t).
+
 (** ** what "regenerated" means on graphs *)
 Definition molg_of (g : hostg) : molg :=
   LG (map (fun p => (fst p, dec_node (snd p))) (gnodes g)) (gedges g).
